@@ -168,6 +168,11 @@ Definition strip_meta (fx : bool) (v : val) : H val :=
   | CNs [] => hret v
   | _ => clone fx FUEL v
   end.
+(* `sm` selects strip_meta as it is (false: `if cfg:` - an empty configuration comes back as the SAME object) or with
+   fixes/C08-empty-config-not-copied.patch (true: always `recreate_branches(cfg, skip_keys=meta_keys)`) *)
+(* (dump and save, which return nothing, keep `strip_meta`: for them the extra copy of an empty namespace is not observable) *)
+Definition strip_meta_gen (sm fx : bool) (v : val) : H val :=
+  if sm then clone fx FUEL v else strip_meta fx v.
 
 (* ---- adapt_typehints (_typehints.py:731-934), the branches for the modelled types.
    list_loop / dict_loop are the `for n, v in enumerate(val): val[n] = adapt(...)` loops: the write
@@ -596,8 +601,7 @@ Definition strip_unknown (fx : bool) (p : parser) (cfg : val) : M val :=
 
 (* ---- instantiate_classes (_core.py:1200-1256): strip_meta, then per ActionTypeHint component
    parent[key] = component.instantiate_classes(value) *)
-Definition instantiate (fx : bool) (p : parser) (cfg : val) : M val :=
-  c <-- lift (strip_meta fx cfg) ;;
+Definition inst_typed (fx : bool) (p : parser) (c : val) : M unit :=
   miter (fun d : decl =>
            kvs <-- lift (ns_items c) ;;
            match aget (d_key d) kvs with
@@ -606,7 +610,26 @@ Definition instantiate (fx : bool) (p : parser) (cfg : val) : M val :=
                y <-- bracket G_PARENT 1 (bracket G_NESTED 1 (bracket G_INSTANTIATORS 1
                        (lift (adapt fx Deser (d_ty d) x)))) ;;
                lift (ns_set c (d_key d) y)
-           end) p ;;;;
+           end) p.
+Definition instantiate (fx : bool) (p : parser) (cfg : val) : M val :=
+  c <-- lift (strip_meta fx cfg) ;;
+  inst_typed fx p c ;;;;
+  ret c.
+
+(* ---- instantiate_classes on a parser that also has CLASS GROUPS (add_class_arguments(Cls, "g") for a class without
+   parameters): after the typed components, per group, `with parser_context(load_value_mode=..., class_instantiators=...):
+   component.instantiate_class(component, cfg)` = group_instantiate_class (_signatures.py): the key is absent
+   (`except KeyError: value = {}; parent = cfg; key = group.dest`), `parent[key] = instantiator_fn(group.group_class)`:
+   a NEW object is stored under the group's key of the namespace strip_meta returned - which, for an empty
+   configuration, is the caller's own object unless strip_meta always copies (sm = true). *)
+Definition group_step (c : val) (g : str) : M unit :=
+  bracket G_LOADMODE 1 (bracket G_INSTANTIATORS 1 (
+    obj <-- lift (halloc (CNs [])) ;;
+    lift (ns_set c g obj))).
+Definition instantiate_groups (sm fx : bool) (p : parser) (gs : list str) (cfg : val) : M val :=
+  c <-- lift (strip_meta_gen sm fx cfg) ;;
+  inst_typed fx p c ;;;;
+  miter (group_step c) gs ;;;;
   ret c.
 
 (* ---- the operations of the correspondence *)
@@ -621,9 +644,10 @@ Inductive op :=
 | OSave (a : val) (file_exists : bool)
 | OMerge (a b : val)
 | OStripUnknown (a : val)
-| OInstantiate (a : val).
+| OInstantiate (a : val)
+| OInstantiateGroups (a : val) (gs : list str).   (* instantiate_classes(a) on a parser with the class groups gs *)
 
-Definition run_op_gen (fx : bool) (p : parser) (o : op) : M val :=
+Definition run_op_sm (sm fx : bool) (p : parser) (o : op) : M val :=
   match o with
   | OGetDefaults => get_defaults fx p
   | OParseObject a => parse_object fx p a
@@ -635,11 +659,16 @@ Definition run_op_gen (fx : bool) (p : parser) (o : op) : M val :=
   | OSave a ex => save fx p ex a ;;;; ret VNone
   | OMerge a b => merge_config fx a b
   | OStripUnknown a => strip_unknown fx p a
-  | OInstantiate a => instantiate fx p a
+  | OInstantiate a => instantiate_groups sm fx p [] a      (* = instantiate fx p a for sm = false: no groups *)
+  | OInstantiateGroups a gs => instantiate_groups sm fx p gs a
   end.
+(* strip_meta as it is in the tree (an empty configuration is not copied) *)
+Definition run_op_gen : bool -> parser -> op -> M val := run_op_sm false.
 (* the pinned tree, and the tree with both C08 patches applied *)
 Definition run_op : parser -> op -> M val := run_op_gen false.
 Definition run_op_fixed : parser -> op -> M val := run_op_gen true.
+(* ... and with fixes/C08-empty-config-not-copied.patch as well *)
+Definition run_op_fixed3 : parser -> op -> M val := run_op_sm true true.
 
 Definition g0 : globals := fun _ => 0%N.
 Definition out_st {A} (o : out A) : st := match o with Ok _ s => s | Err _ s => s end.
@@ -746,13 +775,25 @@ Definition parse_object_arg_ok (h : heap) (a : val) : bool :=
 Definition op_args (o : op) : list val :=
   match o with
   | OGetDefaults | OParseString _ _ | OParsePath _ _ => []
-  | OParseObject a | OValidate a | OValidateBranch a | ODump a _ | OSave a _ | OStripUnknown a | OInstantiate a => [a]
+  | OParseObject a | OValidate a | OValidateBranch a | ODump a _ | OSave a _ | OStripUnknown a | OInstantiate a
+  | OInstantiateGroups a _ => [a]
   | OMerge a b => [a; b]
   end.
 
+(* instantiate_classes of an EMPTY configuration on a parser with class groups: strip_meta hands the caller's own
+   (empty) namespace on and the group instances are stored in it (finding empty-config-not-copied, class 4) *)
+Definition groups_guard (h : heap) (o : op) : bool :=
+  match o with
+  | OInstantiateGroups (VRef l) (_ :: _) => match nth_error h l with Some (CNs []) => false | _ => true end
+  | _ => true
+  end.
+Definition groups_class (h : heap) (o : op) : N := if groups_guard h o then 0%N else 4%N.
+
 (* 0 = inside the guard; 1 = parse_object handed nested mutable containers (or a Namespace);
-   2 = a mutable container below a tuple somewhere in the arguments / declared defaults *)
+   2 = a mutable container below a tuple somewhere in the arguments / declared defaults;
+   4 = instantiate_classes of an empty configuration on a parser with class groups *)
 Definition guard_class (p : parser) (h : heap) (o : op) : N :=
+  if negb (groups_guard h o) then 4%N else
   if negb (forallb (flat_old (length h)) (op_args o) && parser_flat (length h) p) then 2%N
   else match o with
        | OParseObject a => if parse_object_arg_ok h a then (if heap_flat h then 0 else 2)%N else 1%N
